@@ -1131,6 +1131,10 @@ def update_detector_states(
         return new_state
 
     for d in to_update:
+        if d.num_time_steps_recorded == 0:
+            # A detector whose switch is never on owns zero-length record arrays: there is nothing to
+            # update, and tracing the update would index an empty array.
+            continue
         # E already lives at the detector's integer time step; H lives at half steps, so exact
         # detectors time-center H as (H_prev + H) / 2 on their region inside the branch.
         state[d.name] = jax.lax.cond(
